@@ -216,8 +216,12 @@ def c04_corpus(tier, seed):
 # C10: is the mock implementation there? (Unimock: Trait), in test and non-test builds, feature on
 # ---------------------------------------------------------------------------
 
-def c10_program(pid, macro, opts, expect_test, expect_nontest, kind='fn'):
+def c10_program(pid, macro, opts, derive_test, derive_nontest, kind='fn'):
+    """derive_*: is a unimock derivation expected in a cfg(test) / non-test build.  Observables (rustc-decided):
+    `Unimock: Trait` holds iff the derivation is compiled in OR the trait is blanket-implemented (not mockable);
+    a plain application type has the trait iff it is blanket-implemented."""
     o = f', {opts}' if opts else ''
+    mockable = derive_test      # a derivation requested for this invocation (gated or not) <=> impl for Impl<T> only
     src = PRELUDE + PROBE
     if kind == 'fn':
         src += f'#[::entrait::{macro}(pub Tr{o})]\npub fn f1<D>(deps: &D, x: u32) -> u32 {{ x }}\n'
@@ -225,14 +229,21 @@ def c10_program(pid, macro, opts, expect_test, expect_nontest, kind='fn'):
         src += f'#[::entrait::{macro}(pub Tr{o})]\npub mod m {{ pub fn f1<D>(deps: &D, x: u32) -> u32 {{ x }} pub fn f2<D>(deps: &D, x: u32) -> u32 {{ x }} }}\n'
     else:
         src += f'#[::entrait::{macro}({opts})]\npub trait Tr {{ fn f1(&self, x: u32) -> u32; }}\n'
-    src += probe_impl('Tr')
+    src += probe_impl('Tr') + 'pub struct Plain;\n'
     h = f'{pid}_h'
     src += harness_head(h)
-    src += (f'    let has_mock = Probe::<::unimock::Unimock>({PH}).yes();\n'
-            f'    #[cfg(test)]\n    assert!(has_mock == {str(expect_test).lower()}, "mock implementation in a cfg(test) build");\n'
-            f'    #[cfg(not(test))]\n    assert!(has_mock == {str(expect_nontest).lower()}, "mock implementation in a non-test build");\n'
-            '    kani::cover!(true);\n}\n')
-    return Program(pid, f'mock presence macro={macro} opts={opts!r} kind={kind} expect test={expect_test} nontest={expect_nontest}', src, [h], ['C10'])
+    src += f'    let has_mock = Probe::<::unimock::Unimock>({PH}).yes();\n'
+    if kind == 'trait':
+        # entraited traits are implemented for Impl<T> only; Unimock gets the trait from the derivation alone
+        src += (f'    #[cfg(test)]\n    assert!(has_mock == {str(derive_test).lower()}, "mock implementation in a cfg(test) build");\n'
+                f'    #[cfg(not(test))]\n    assert!(has_mock == {str(derive_nontest).lower()}, "mock implementation in a non-test build");\n')
+    else:
+        src += (f'    let plain = Probe::<Plain>({PH}).yes();\n'
+                f'    assert!(plain == {str(not mockable).lower()}, "blanket impl iff no mock derivation is requested");\n'
+                f'    #[cfg(test)]\n    assert!(has_mock == {str(derive_test or not mockable).lower()}, "mock implementation in a cfg(test) build");\n'
+                f'    #[cfg(not(test))]\n    assert!(has_mock == {str(derive_nontest or not mockable).lower()}, "mock implementation in a non-test build");\n')
+    src += '    kani::cover!(true);\n}\n'
+    return Program(pid, f'mock presence macro={macro} opts={opts!r} kind={kind} derive test={derive_test} nontest={derive_nontest}', src, [h], ['C10'])
 
 
 def c10_corpus(tier, seed):
@@ -246,8 +257,7 @@ def c10_corpus(tier, seed):
         return f'c10_{k:03d}'
     for kind in ('fn', 'mod'):
         P_.append(c10_program(pid(), 'entrait', 'mock_api = M', True, False, kind))
-        # no mock_api: no derivation; the trait is then blanket-implemented, which covers Unimock like any Sync + 'static type
-        P_.append(c10_program(pid(), 'entrait', '', True, True, kind))
+        P_.append(c10_program(pid(), 'entrait', '', False, False, kind))
         P_.append(c10_program(pid(), 'entrait', 'unimock = false, mock_api = M', False, False, kind))
         P_.append(c10_program(pid(), 'entrait', 'mock_api = M, export', True, True, kind))
         P_.append(c10_program(pid(), 'entrait', 'mock_api = M, export = false', True, False, kind))
